@@ -9,7 +9,7 @@
  C04.inline  every copy into the inline short-string buffer is dominated by a length guard that keeps length+1 within it
  Value semantics of accessors and the numeric equality lattice are not decided."""
 import os
-import ir, q, alias
+import ir, q, alias, bounded
 from ir import strip, strip_lv, const_val, T, pe, walk_expr, fn_exprs, AnalysisBroken
 from core import fwhere
 import C01
@@ -61,13 +61,46 @@ def heap_tags(ctx, prog):
     return tags
 
 
-def switch_on_type(f):
-    """switches whose condition reads the _type member: [(switch stmt, {value: [statements of the case]})]"""
+def switch_on_type(f, prog=None):
+    """dispatches on the _type member, in source order: [(stmt, {tag value | 'default': [statements of that arm]})].
+    A dispatch is a `switch (_type)` or an if / else-if chain of at least two arms whose conditions test _type; the
+    tag values of an arm of a chain are found by evaluating its condition with _type bound to each enumerator."""
     out = []
+    in_chain = set()
     for s_ in ir.walk_stmts(f['body']):
+        if s_.get('k') == 'if' and id(s_) not in in_chain and prog is not None:
+            arms = []
+            cur = s_
+            while isinstance(cur, dict) and cur.get('k') == 'if' and type_mems(cur['c']):
+                in_chain.add(id(cur))
+                arms.append((cur['c'], cur['then']))
+                cur = cur.get('else')
+                while isinstance(cur, dict) and cur.get('k') == 'block' and len(cur['s']) == 1 and cur['s'][0].get('k') == 'if':
+                    cur = cur['s'][0]
+            if len(arms) >= 2:
+                texts = set(pe(m) for c, _ in arms for m in type_mems(c))
+                if len(texts) == 1:
+                    text = texts.pop()
+                    en = prog.enums['asl::Var::Type']
+                    cases = {}
+                    taken = set()
+                    for c, body in arms:
+                        stmts = body['s'] if body.get('k') == 'block' else [body]
+                        for v in sorted(set(x['v'] for x in en['consts'])):
+                            if v in taken:
+                                continue
+                            r = bounded.Bound(prog, f, {}, {text: v}).ev3(c)
+                            if r is not False:
+                                cases.setdefault(v, []).extend(stmts)
+                            if r is True:
+                                taken.add(v)
+                    if cur is not None:
+                        cases['default'] = cur['s'] if cur.get('k') == 'block' else [cur]
+                    out.append((s_, cases))
+            continue
         if s_.get('k') != 'switch':
             continue
-        if not any(w.get('k') == 'mem' and w.get('f') == '_type' for w in walk_expr(s_['c'])):
+        if not type_mems(s_['c']):
             continue
         cases = {}
         cur = []
@@ -88,6 +121,10 @@ def switch_on_type(f):
     return out
 
 
+def type_mems(c):
+    return [w for w in walk_expr(c) if w.get('k') == 'mem' and w.get('f') == '_type']
+
+
 def members_touched(stmts):
     s_ = set()
     for st in stmts:
@@ -104,7 +141,7 @@ def check_tags(ctx, prog, tags):
     for name, sig, _ in targets:
         f = var_fn(prog, name, sig)
         ctx.analysed(f)
-        sws = switch_on_type(f)
+        sws = switch_on_type(f, prog)
         if not sws:
             ctx.undecided('R-TAG', f['pq'], name + ':dispatch', fwhere(f), 'no switch on the type tag')
             continue
@@ -132,7 +169,7 @@ def check_tags(ctx, prog, tags):
     en = prog.enums['asl::Var::Type']
     vals = sorted(set(c['v'] for c in en['consts'] if c['n'] != 'NONE'))
     covered = set()
-    for sw, cases in switch_on_type(f):
+    for sw, cases in switch_on_type(f, prog):
         covered |= set(v for v in cases if v != 'default')
     for e in fn_exprs(f):
         if e.get('k') == 'bin' and e.get('op') == '==' and strip_lv(e['x']).get('f') == '_type' and const_val(e['y']) is not None:
@@ -172,7 +209,7 @@ def check_alias(ctx, prog):
 def check_clone(ctx, prog, tags):
     f = var_fn(prog, 'clone')
     ctx.analysed(f)
-    sws = switch_on_type(f)
+    sws = switch_on_type(f, prog)
     if not sws:
         return
     sw, cases = sws[-1]
@@ -235,40 +272,24 @@ def check_inline(ctx, prog):
             if cv is not None:
                 ctx.check(cv <= cap, 'C04.inline', f['pq'], role, where, 'copies %d bytes into %d' % (cv, cap), 'copies %d bytes into the %d-byte inline buffer' % (cv, cap))
                 continue
-            ss = strip(size)
-            k = 0
-            lv = ss
-            if ss.get('k') == 'bin' and ss.get('op') == '+' and const_val(ss['y']) is not None:
-                k = const_val(ss['y'])
-                lv = strip(ss['x'])
-            bound = None
-            def same_len(x):
-                x = strip(x)
-                if lv.get('k') == 'var':
-                    return x.get('k') == 'var' and x.get('id') == lv['id']
-                # a pure length query on the same object, e.g. v.length()
-                return lv.get('k') == 'call' and x.get('k') == 'call' and 'const' in (lv.get('sig') or '') and pe(x) == pe(lv)
-            if lv.get('k') in ('var', 'call'):
-                for c, pol, kind in g.of(e):
-                    cc = strip(c)
-                    for part in conjuncts(cc) if pol is True else [cc]:
-                        part = strip(part)
-                        if part.get('k') == 'bin' and part.get('op') in ('<', '<=', '>', '>=') and same_len(part['x']) and const_val(part['y']) is not None:
-                            cst, op = const_val(part['y']), part['op']
-                            if pol is True and op == '<':
-                                bound = cst - 1
-                            elif pol is True and op == '<=':
-                                bound = cst
-                            elif pol is False and op == '>=' and cc is part:
-                                bound = cst - 1
-                            elif pol is False and op == '>' and cc is part:
-                                bound = cst
+            # decide by evaluation: bind the quantities the size depends on (the string length) to every value of a
+            # grid reaching well past the buffer, drop the points a dominating guard excludes, and require size <= cap
             ctx.evaluations += 1
-            if bound is None:
-                ctx.violation('C04.inline', f['pq'], role, where, 'copy of `%s` bytes into the %d-byte inline buffer is not dominated by a guard on `%s`' % (pe(size), cap, pe(lv)))
+            try:
+                by_id, by_text = bounded.atoms_of(prog, f, size)
+            except bounded.Undecidable as u:
+                ctx.undecided('C04.inline', f['pq'], role, where, str(u))
+                continue
+            st, info = bounded.decide(prog, f, g.of(e), lambda ev: ev.ev(size) <= cap, by_id, by_text, range(0, cap + 40))
+            if st == 'undecided':
+                ctx.undecided('C04.inline', f['pq'], role, where, 'size `%s`: %s' % (pe(size), info))
+            elif st == 'holds' and info == 0:
+                ctx.undecided('C04.inline', f['pq'], role, where, 'no grid point reaches the copy: guards contradictory?')
+            elif st == 'holds':
+                ctx.ok('C04.inline', f['pq'], role, where, 'for every length the dominating guards admit (%d grid points), `%s` <= %d' % (info, pe(size), cap))
             else:
-                ctx.check(bound + k <= cap, 'C04.inline', f['pq'], role, where, 'guard bounds the copy to %d <= %d bytes' % (bound + k, cap),
-                          'the dominating guard allows `%s` up to %d, so %d bytes are copied into the %d-byte inline buffer (one past the end for a string of exactly %d characters)' % (pe(lv), bound, bound + k, cap, bound))
+                ctx.violation('C04.inline', f['pq'], role, where, 'the dominating guards admit %s, for which `%s` exceeds the %d-byte inline buffer (a string of exactly that length overruns it)' % (
+                    ', '.join('%s = %s' % kv for kv in sorted(info.items())), pe(size), cap))
     ctx.floor('C04.inline copy sites', n, 5)
 
 
